@@ -376,9 +376,9 @@ theorem k_newAsync {e : Nat} {ex : St → BOp → St} (hex : Kex e ex) (hsx : SR
     K e a (newAsync ex st b) := by
   unfold newAsync
   have hne : st.effs.length ≠ e := by have := h.lt; omega
-  have h1 : K e a (setMutDepth (pushEager st b EffKind.async) (st.mutDepth + 1)) :=
+  have h1 : K e a (setMutDepth (pushEager st b EffKind.async) st.mutDepth) :=
     K.same (st := pushEager st b EffKind.async) (k_pushEager h _ _) rfl rfl
-  have s1 : SR a (setMutDepth (pushEager st b EffKind.async) (st.mutDepth + 1)) :=
+  have s1 : SR a (setMutDepth (pushEager st b EffKind.async) st.mutDepth) :=
     SR.react (st := pushEager st b EffKind.async) (sr_pushEager hs _ _) rfl
   have h2 := k_runScoped hex hsx hd s1 h1 st.effs.length (eagerOwner st) b hne
   refine k_finishAsync (k_addTask ?_ _) _ hne
